@@ -590,6 +590,39 @@ theorem C04_refines_sequential (k : Kernel) (hk : k.WF) (h : List Op) (hs : SeqH
   rw [← abs_init]
   exact trace_sim cfg cfg_good.range h _ (init_seqInv k hk) hs
 
+/-- the same with the specification machine's parameter `noAccess` written out as the literal the statement
+    allows ("`pid` and the cached `create_time` need no look at the process"), not read off the code: by the
+    obligation `cfg_no_access_attrs` the two coincide, and if the code changes the obligation — not the
+    specification — moves (audit item 6). -/
+theorem C04_refines_sequential_literal (k : Kernel) (hk : k.WF) (h : List Op) (hs : SeqHist cfg (St.init k) h) :
+    strace cfg.validNames ["create_time", "pid"] (SSt.init k) h = (trace cfg (St.init k) h).map some := by
+  rw [← cfg_no_access_attrs]; exact C04_refines_sequential k hk h hs
+
+/-- what "vanished" (`Kernel.statStart q = none`, used by the specification machine and by every completeness
+    theorem) means, written out from the statement's vocabulary: no process of the table has PID `q` and no
+    thread has id `q` (`/proc/q` cannot be opened). -/
+theorem C04_vanished_iff (k : Kernel) (q : Nat) :
+    k.statStart q = none ↔ (∀ pr ∈ k.procs, pr.pid ≠ q) ∧ (∀ t ∈ k.thrs, t.tid ≠ q) := by
+  simp only [Kernel.statStart]
+  cases h1 : k.findProc q with
+  | some p =>
+    have hp := findProc_some h1
+    simp only [reduceCtorEq, false_iff, not_and]
+    intro h; exact absurd hp.2 (h p hp.1)
+  | none =>
+    have hnp := findProc_none h1
+    simp only [Option.map_eq_none_iff]
+    constructor
+    · intro h2
+      refine ⟨fun pr hpr => hnp pr hpr, ?_⟩
+      intro t ht he
+      simp only [Kernel.findThr, List.find?_eq_none] at h2
+      exact absurd (by simpa using he) (h2 t ht)
+    · intro h2
+      simp only [Kernel.findThr, List.find?_eq_none]
+      intro t ht
+      simpa using h2.2 t ht
+
 /-! The lemmas below say what the specification machine's cache does — by
     `C04_refines_sequential` that is what the code does on every sequential history. -/
 
